@@ -24,6 +24,64 @@ use crate::shm::*;
 struct SwitchFs {
     inner: TmpFileSystem,
     on: AtomicBool,
+    /// while `on`: the write with this index (0-based) among the writes to WAL files fails, once
+    fail_wal_write: Option<u64>,
+    wal_writes: Arc<AtomicU64>,
+}
+
+/// A file handle whose writes are counted (WAL files only) and may be made to fail.
+struct CountedFile {
+    inner: Box<dyn RandomAccessFile>,
+    fail_at: Option<u64>,
+    counter: Arc<AtomicU64>,
+    armed: bool,
+}
+
+impl CountedFile {
+    fn gate(&self) -> io::Result<()> {
+        if !self.armed {
+            return Ok(());
+        }
+        let n = self.counter.fetch_add(1, Ordering::SeqCst);
+        if Some(n) == self.fail_at {
+            return Err(io::Error::new(io::ErrorKind::Other, "injected fault"));
+        }
+        Ok(())
+    }
+}
+
+impl io::Read for CountedFile {
+    fn read(&mut self, buf: &mut [u8]) -> io::Result<usize> {
+        self.inner.read(buf)
+    }
+}
+impl io::Seek for CountedFile {
+    fn seek(&mut self, pos: io::SeekFrom) -> io::Result<u64> {
+        self.inner.seek(pos)
+    }
+}
+impl io::Write for CountedFile {
+    fn write(&mut self, buf: &[u8]) -> io::Result<usize> {
+        self.gate()?;
+        self.inner.write(buf)
+    }
+    fn flush(&mut self) -> io::Result<()> {
+        self.inner.flush()
+    }
+}
+impl ReadonlyRandomAccessFile for CountedFile {
+    fn read_from(&self, buf: &mut [u8], offset: usize) -> io::Result<usize> {
+        self.inner.read_from(buf, offset)
+    }
+    fn len(&self) -> io::Result<u64> {
+        self.inner.len()
+    }
+}
+impl RandomAccessFile for CountedFile {
+    fn append(&mut self, buf: &[u8]) -> io::Result<usize> {
+        self.gate()?;
+        self.inner.append(buf)
+    }
 }
 
 impl SwitchFs {
@@ -60,7 +118,16 @@ impl FileSystem for SwitchFs {
     }
     fn create_file(&self, p: &Path, append: bool) -> io::Result<Box<dyn RandomAccessFile>> {
         self.sw();
-        self.inner.create_file(p, append)
+        let f = self.inner.create_file(p, append)?;
+        if self.fail_wal_write.is_some() && p.extension().map(|e| e == "log").unwrap_or(false) {
+            return Ok(Box::new(CountedFile {
+                inner: f,
+                fail_at: self.fail_wal_write,
+                counter: Arc::clone(&self.wal_writes),
+                armed: self.on.load(Ordering::SeqCst),
+            }));
+        }
+        Ok(f)
     }
     fn remove_file(&self, p: &Path) -> io::Result<()> {
         self.sw();
@@ -110,11 +177,13 @@ pub struct P17 {
     pub name: String,
     pub initial: Initial,
     pub actors: Vec<Actor>,
+    /// the write with this index among the actors' writes to WAL files fails once
+    pub fail_wal_write: Option<u64>,
 }
 
 impl P17 {
     pub fn describe(&self) -> Value {
-        json!({"program": self.name, "initial": format!("{:?}", self.initial), "actors": self.actors.iter().map(|a| format!("{:?}", a)).collect::<Vec<_>>()})
+        json!({"program": self.name, "initial": format!("{:?}", self.initial), "actors": self.actors.iter().map(|a| format!("{:?}", a)).collect::<Vec<_>>(), "failing_wal_write_index": self.fail_wal_write})
     }
 }
 
@@ -156,6 +225,8 @@ fn body(p: &P17) -> Option<(String, String)> {
     let fs = Arc::new(SwitchFs {
         inner: TmpFileSystem::new(None),
         on: AtomicBool::new(false),
+        fail_wal_write: p.fail_wal_write,
+        wal_writes: Arc::new(AtomicU64::new(0)),
     });
     let alive = Arc::new(AtomicI64::new(0));
     let max_alive = Arc::new(AtomicI64::new(0));
@@ -352,8 +423,13 @@ fn body(p: &P17) -> Option<(String, String)> {
 
 pub fn programs() -> Vec<P17> {
     use Actor::*;
-    let mk = |name: &str, initial: Initial, actors: Vec<Actor>| P17 { name: name.to_string(), initial, actors };
+    let mk = |name: &str, initial: Initial, actors: Vec<Actor>| P17 { name: name.to_string(), initial, actors, fail_wal_write: None };
+    let mkf = |name: &str, initial: Initial, actors: Vec<Actor>, k: u64| P17 { name: name.to_string(), initial, actors, fail_wal_write: Some(k) };
     vec![
+        // the owner's third put rotates the memtable (a flush is scheduled) and its WAL append
+        // fails: the close that follows must still hold the lock until the flush has ended
+        mkf("closed:openclose(3rd wal write fails)||hold", Initial::Closed, vec![OpenPutClose, OpenHold], 2),
+        mkf("closed:openclose(2nd wal write fails)||openclose", Initial::Closed, vec![OpenPutClose, OpenPutClose], 1),
         mk("open:open||open", Initial::Open, vec![OpenHold, OpenPutClose]),
         mk("open:open||destroy", Initial::Open, vec![OpenPutClose, Destroy]),
         mk("open:destroy||destroy", Initial::Open, vec![Destroy, Destroy]),
